@@ -216,6 +216,9 @@ def run(ctx):
                  (["mtseq", P, s, 2000], "sequencer_node fed shuffled tags by 1-4 threads: exactly 0..n-1 in order; duplicates refused"),
                  (["mtlimiter", P, s, 2000], "limiter_node with decrementer: never more than threshold bodies in flight, nothing lost"),
                  (["mtjoin", P, s, 1500, r % 3], "join_node (queueing/reserving/key_matching by turns) fed by two threads: only matching complete tuples")]
+    runs += [(["limdec", 2, ctx.seed, 0], "limiter_node<int,int> with thresholds 1-6, 0..threshold messages outstanding, integral decrements 1..threshold+1 sent from inside the put, by a second thread "
+                                       "during the put, or between puts: forwarded minus ALL requested decrements never exceeds the threshold"),
+             (["limdec", 4, ctx.seed + 1, 0], "limiter_node<int,int> integral decrements (as above)")]
     bad = 0
     ctx.rules.append("fgbuf-mt (oracle only): queue / sequencer / limiter / join graphs with real threads, 1-16 workers")
     for args, what in runs:
